@@ -20,12 +20,13 @@ META = {
         "quick": "N=3 symbolic events per stage with symbolic per-event random numbers; all 6 permutations, both split points, two consecutive calls on one object; stages: vec_1d_interp, grid_cdf_sampler, Taus.tau_exit_prob, Taus.tau_energy, Taus.__call__, EAS.altDec, EAS.__call__, calculate_snr, RegionGeomToO.generate_times / throw; interpolation rows of M=2 nodes",
         "thorough": "additionally RegionGeom.throw (N=2) and EASRadio.__call__ (repeat / no-mutation), M=3 rows",
     },
-    "outside_bounds": ["batches larger than the 8192-element nditer buffer: the nditer stub yields one chunk; the chunk boundary is C code and is NOT covered", "N > 3", "stages whose random numbers cannot be supplied per event (EASRadio, power-law spectrum) are checked for repeatability and input preservation only"],
-    "stubs": ["np.nditer -> one chunk", "scipy interpn / RegularGridInterpolator -> reference multilinear interpolation", "CphotAng -> per-event uninterpreted function of that event's inputs", "astropy Time/TimeDelta and ToOEvent -> symbolic (see C13)"],
+    "outside_bounds": ["the 8192-element nditer buffer boundary is modelled on a small batch (N=3 handed out in chunks of 2 by the iterator stub; sat verdicts are replayed on a real batch of 8264 events); chunk sizes other than 2 and the iterator's C code itself are outside", "N > 3", "stages whose random numbers cannot be supplied per event (EASRadio, power-law spectrum) are checked for repeatability and input preservation only"],
+    "stubs": ["np.nditer -> one chunk, and (job sampler_chunk) consecutive chunks of 2", "scipy interpn / RegularGridInterpolator -> reference multilinear interpolation", "CphotAng -> per-event uninterpreted function of that event's inputs", "astropy Time/TimeDelta and ToOEvent -> symbolic (see C13)",
+              "astropy in ToOEvent (job tooframes) -> model: times with identities and symbolic Julian dates, a frame remembers its times, a transformed coordinate has one symbol per (object, coordinate time, frame time)"],
     "assumptions": ["equality of results is established twice: identity of the EUF shadow terms (same uninterpreted operations on the same operands in the same order: bit-for-bit under any arithmetic) and solver equality over the reals",
                     "alias tracking: an in-place operator or indexed store whose target shares storage with a harness-supplied input is reported as a mutation of the input"],
 }
-LEDGER = {"quick": 940, "thorough": 1200}
+LEDGER = {"quick": 955, "thorough": 1200}
 
 
 def _cells(x):
@@ -263,6 +264,110 @@ def too_run(N):
     return run
 
 
+# ---------------------------------------------------------------------------------
+# ToOEvent: every coordinate / ephemeris is evaluated at the times it is asked for
+class _AstroModel:
+    """astropy stand-in for ToOEvent: times are arrays of symbolic Julian dates with identities; a frame
+    remembers the times it was built for; a transformed coordinate has one altitude/azimuth symbol per
+    (object, time of the coordinate, time of the frame).  This is the dependence the real astropy has;
+    the values themselves are free symbols."""
+
+    class Times:
+        def __init__(self, ids, scalar=False):
+            self.ids, self.isscalar = list(ids), scalar
+
+        shape = property(lambda self: () if self.isscalar else (len(self.ids),))
+        size = property(lambda self: len(self.ids))
+        jd = property(lambda self: SV(t=z3.Real(f"jd{self.ids[0]}")) if self.isscalar else SymArray([SV(t=z3.Real(f"jd{i}")) for i in self.ids], "float"))
+        mjd = jd
+        value = jd
+
+        def __len__(self):
+            return len(self.ids)
+
+        def __getitem__(self, k):
+            if isinstance(k, (int, _np.integer)):
+                return _AstroModel.Times([self.ids[k]], True)
+            return _AstroModel.Times(list(_np.array(self.ids)[k]))
+
+        def _ext(self, hi):
+            best = self.ids[0]
+            for i in self.ids[1:]:
+                a, b = z3.Real(f"jd{i}"), z3.Real(f"jd{best}")
+                if bool(SV(t=(a > b) if hi else (a < b), kind="B")):
+                    best = i
+            return _AstroModel.Times([best], True)
+
+        def min(self):
+            return self._ext(False)
+
+        def max(self):
+            return self._ext(True)
+
+    class Frame:
+        def __init__(self, obstime=None, location=None):
+            self.obstime, self.location = obstime, location
+
+    class Coord:
+        def __init__(self, what, times=None):
+            self.what, self.times = what, times
+
+        def transform_to(self, frame):
+            ft = frame.obstime
+            ids = ft.ids
+            own = self.times.ids if self.times is not None else [None] * len(ids)
+            if len(own) != len(ids):
+                raise ValueError("operands could not be broadcast together")
+            sym = lambda q: SymArray([SV(t=z3.Real(f"{self.what}_{q}[coord@{o},frame@{f}]")) for o, f in zip(own, ids)], "float")  # noqa
+            alt = type("Alt", (), {"rad": sym("alt"), "deg": sym("altdeg")})()
+            az = type("Az", (), {"rad": sym("az"), "deg": sym("azdeg")})()
+            return type("Local", (), {"alt": alt, "az": az, "frame_times": list(ids)})()
+
+    @classmethod
+    def module(cls):
+        import types as _t
+
+        m = _t.ModuleType("astropy_model")
+        m.time = _t.SimpleNamespace(Time=lambda *a, **k: cls.Times([0], True))
+        m.coordinates = _t.SimpleNamespace(
+            AltAz=cls.Frame, SkyCoord=lambda **k: cls.Coord("source"), EarthLocation=lambda **k: ("location", tuple(sorted(k))),
+            get_body=lambda name, time: cls.Coord(name, time))
+        return m
+
+
+def tooframes_run(N):
+    def run(C):
+        A = _AstroModel
+        ns = load.load("nuspacesim.simulation.geometry.too", {"astropy": A.module()})
+        cfgns = type("NS", (), {})
+        sm = type("SM", (), {"sun_alt_cut": SV(t=z3.Real("sun_alt_cut")), "moon_alt_cut": SV(t=z3.Real("moon_alt_cut")), "moon_min_phase_angle_cut": SV(t=z3.Real("phase_cut"))})()
+        pos = type("P", (), {"latitude": 0.3, "longitude": 1.0, "altitude": 525.0})()
+        tgt = type("T", (), {"source_RA": 0.5, "source_DEC": 0.2, "source_date": "2022-06-02T01:00:00", "source_date_format": "isot", "source_obst": 86400.0})()
+        cfg = type("Cfg", (), {"detector": type("D", (), {"sun_moon": sm, "initial_position": pos})(), "simulation": type("S", (), {"target": tgt})()})()
+        too = ns["ToOEvent"](cfg)
+        for i in range(N - 1):
+            C.assume(z3.Real(f"jd{i}") != z3.Real(f"jd{i+1}"))
+        ids = list(range(N))
+        orders = [ids, ids[::-1], ids[1:] + ids[:1], ids[:-1], ids]
+        claims = {}
+        for k, order in enumerate(orders):
+            T = A.Times(order)
+            for name, fn in (("localcoords", too.localcoords), ("get_sun", too.get_sun), ("get_moon", too.get_moon)):
+                r = fn(T)
+                what = {"localcoords": "source", "get_sun": "sun", "get_moon": "moon"}[name]
+                own = [None] * len(order) if name == "localcoords" else order
+                want = [f"{what}_alt[coord@{o},frame@{f}]" for o, f in zip(own, order)]
+                got = [str(SV.of(x).term()) for x in r.alt.rad.a]
+                claims[f"ToOEvent.{name}: call {k + 1} (times in order {order}) is evaluated at exactly the times given, whatever was asked before on the same object"] = z3.BoolVal(got == want)
+        return harness.Out(claims=claims, inputs={f"jd{i}": z3.Real(f"jd{i}") for i in range(N)})
+
+    return run
+
+
+def job_tooframes(N, tier):
+    return _job(f"ToOEvent frames (N={N}, astropy modelled)", tooframes_run(N), tier)
+
+
 def _job(name, run, tier, to=60000):
     return harness.run_job(name, run, timeout_ms=to if tier == "quick" else 300000, prune_timeout_ms=3000)
 
@@ -299,7 +404,7 @@ def jobs(tier, seed):
     out = [("interp", "job_interp", {"N": 3, "M": M, "tier": tier}), ("sampler", "job_sampler", {"N": 3, "M": 2, "tier": tier}), ("sampler_chunk", "job_sampler", {"N": 3, "M": 2, "tier": tier, "chunk": 2}),
            ("texit", "job_taus", {"N": 2, "which": "exit", "tier": tier}), ("tenergy", "job_taus", {"N": 2, "which": "energy", "tier": tier}),
            ("altdec", "job_eas", {"N": 3, "which": "altDec", "tier": tier}), ("eas", "job_eas", {"N": 3, "which": "call", "tier": tier}),
-           ("snr", "job_snr", {"N": 3, "tier": tier}), ("too", "job_too", {"N": 3, "tier": tier})]
+           ("snr", "job_snr", {"N": 3, "tier": tier}), ("too", "job_too", {"N": 3, "tier": tier}), ("tooframes", "job_tooframes", {"N": 3, "tier": tier})]
     return out
 
 
@@ -323,6 +428,8 @@ def replay(v):
         if not np.array_equal(fr, keep):
             return {"reproduced": True, "key": "generate_times modifies the caller's array", "detail": f"input {keep.tolist()} became {fr.tolist()} (observation time {g.sourceOBSTime} s)"}
         return {"reproduced": False, "key": None, "detail": "input array unchanged"}
+    if job.startswith("ToOEvent frames"):
+        return _replay_tooframes()
     stage = ob.split("/", 1)[-1].split(":", 1)[0].strip()
     real = _real_stage(stage, big="iterator chunks" in job)
     if real is not None:
@@ -332,6 +439,36 @@ def replay(v):
             return {"reproduced": True, "key": f"{stage}: {bad[0]}", "detail": bad[1]}
         return {"reproduced": False, "key": None, "detail": "real stage: inputs untouched, permutation / split / repeat invariant on the probe batch"}
     return {"reproduced": False, "key": None, "detail": "no numeric replay for this stage"}
+
+
+def _replay_tooframes():
+    """real astropy: a used ToOEvent object against a fresh one, for reordered / shifted sets of times"""
+    import warnings
+
+    import astropy.units as au
+    import numpy as np
+    from astropy.utils import iers
+
+    from nuspacesim.config import NssConfig
+    from nuspacesim.simulation.geometry.too import ToOEvent
+
+    iers.conf.auto_download = False
+    warnings.simplefilter("ignore")
+    cfg = NssConfig()
+    cfg.simulation.mode = "Target"
+    used = ToOEvent(cfg)
+    base = used.eventtime + np.array([0.0, 3.0, 6.0, 9.0]) * au.hour
+    orders = [[0, 1, 2, 3], [3, 2, 1, 0], [1, 2, 3, 0], [0, 2, 1, 3], [0, 1, 2, 3]]
+    for k, order in enumerate(orders):
+        t = base[order]
+        for name in ("localcoords", "get_sun", "get_moon"):
+            got = getattr(used, name)(t).alt.rad
+            want = getattr(ToOEvent(cfg), name)(t).alt.rad
+            if not np.allclose(got, want, rtol=0, atol=1e-12):
+                j = int(np.argmax(np.abs(got - want)))
+                return {"reproduced": True, "key": f"ToOEvent.{name}: result depends on the calls made before on the same object",
+                        "detail": f"call {k + 1} with the times in order {order}: altitude at position {j} is {got[j]!r} rad on the used object, {want[j]!r} rad on a fresh one"}
+    return {"reproduced": False, "key": None, "detail": "real astropy: used and fresh objects agree for every order"}
 
 
 def _real_stage(stage, big=False):
